@@ -21,7 +21,7 @@ from tracelib import *
 PROP = "C04"
 LEVEL = "exploration"
 FLAVOUR = "plain"
-TIERS = {"quick": (1800, 170), "thorough": (40000, 3300)}
+TIERS = {"quick": (3000, 170), "thorough": (60000, 3300)}
 RULE_TEXT = ("one run = one generated null-datamodel chart (<= 10 states, parallel/history/final, internal/targetless/multi-target/eventless transitions, "
              "raise/send/cancel/log/if content) x one timed history; the interpreter runs in the simulator, the emitted C is compiled with ASan+UBSan and hosted; "
              "compared: events dequeued, executed content (log, raise, send, cancel, done events) and configurations; non-trivial = at least 2 events and 3 "
@@ -42,11 +42,11 @@ class Context(object):
 
 def gen_plan(seed, k):
     rp = usimlib.substream(seed, "plan")
-    root = p_c01.gen_chart(rp, "null", {"late": False})
+    root = p_c01.gen_chart(rp, "null", {"late": False, "delayed_internal": False})
     ops = [{"op": "create", "i": 0, "chart": "main", "engine": "default"}, {"op": "validate", "i": 0},
            {"op": "transform", "i": 0, "kind": "c", "full": True}]
-    ops += p_c01.history_ops(rp)
-    return {"id": k, "seed": seed, "entropy_seed": seed & 0x7fffffff,
+    ops += p_c01.history_ops(rp, many=(True if (root.meta or {}).get("par_bias") and rp.random() < 0.8 else None))
+    return {"id": k, "seed": seed, "entropy_seed": seed & 0x7fffffff, "step_budget": 200,
             "sched": {"seed": seed & 0x7fffffff, "policy": "nonpreempt", "max_decisions": 400000},
             "charts": {"main": root.xml()}, "actors": {"main": ops}}
 
@@ -164,6 +164,9 @@ def check(plan, usim, tag):
     v = []
     info = {"nontrivial": False, "skipped": None, "events": 0, "cfgs": 0}
     res = usim.run(plan)
+    if res.end:
+        info["sim_ms"] = res.end.get("sim_ms", 0)
+        info["decisions"] = res.end.get("decisions", 0)
     if res.failed_hard():
         info["skipped"] = "interpreter run ended by a verdict/crash of another property"
         return v, info
@@ -178,14 +181,19 @@ def check(plan, usim, tag):
     if ctext is None:
         info["skipped"] = "transformer threw"
         return v, info
-    if any(r[KIND] == "op>" and r[6] == "run" and r[7] not in ("IDLE", "FINISHED") for r in res.lines):
-        info["skipped"] = "step cap (endless loop in the chart)"
-        return v, info
+    # a chart that loops without events is cut by the step cap / plan budget: compare up to there, the generated machine just goes on
+    capped = [r[SEQ] for r in res.lines if r[KIND] == "op>" and r[6] == "run" and r[7] not in ("IDLE", "FINISHED")]
+    info["capped"] = bool(capped)
     istream, ext_order = interp_stream(plan, res)
+    if capped:
+        ext_order = interp_stream_until(plan, res, capped[0], want_ext=True)
     out, herr, stderr = build_and_run_host(ctext, ext_order, tag)
     if herr == "compile":
         v.append(("C04.does-not-compile", "the emitted C does not compile:\n" + stderr))
         return v, info
+    if herr == "exit3":
+        # the host's internal queue (4096 entries) overflowed: the generated machine keeps raising events where the interpreter came to rest
+        herr = None
     if herr and herr.startswith("exit"):
         kind = "sanitizer report" if herr == "exit77" else herr
         first = [ln for ln in stderr.splitlines() if "runtime error" in ln or "ERROR: AddressSanitizer" in ln][:1]
@@ -195,8 +203,15 @@ def check(plan, usim, tag):
         v.append(("C04.trace-differs", "the hosted generated machine did not terminate within 60 s"))
         return v, info
     hstream, hosterr = host_stream(out or "")
-    if hosterr and "step budget" in hosterr:
+    if hosterr and "step budget" in hosterr and not capped:
         info["skipped"] = "host step budget"
+        return v, info
+    # "the generated machine does not come to rest" only means something where the interpreter did: its last run op ended IDLE or FINISHED
+    runs = [r[7] for r in res.lines if r[KIND] == "op>" and r[6] == "run"]
+    rested = bool(runs) and runs[-1] in ("IDLE", "FINISHED") and not capped
+    overflow = bool(hosterr and "overflow" in hosterr) and rested
+    if hosterr and "overflow" in hosterr and not rested and not capped:
+        info["skipped"] = "interpreter not run to rest"
         return v, info
     # the interpreter is cancelled by the harness at the end; the generated machine has no cancel: compare up to there
     n = len(istream)
@@ -209,29 +224,37 @@ def check(plan, usim, tag):
     a = istream[:n]
     bcp = None
     # cut the interpreter stream at the cancel
-    if cancel_seq:
-        a = interp_stream_until(plan, res, cancel_seq[0])
+    cut = min(cancel_seq[:1] + capped[:1]) if (cancel_seq or capped) else None
+    if cut is not None:
+        a = interp_stream_until(plan, res, cut)
+        if capped and capped[0] == cut:
+            # the cut falls inside a macrostep: drop the last, possibly incomplete, event's records
+            while a and a[-1][0] != "E":
+                a.pop()
+            if a:
+                a.pop()
     hb = list(hstream)
     m = min(len(a), len(hb))
-    if a[:m] != hb[:m] or (len(hb) < len(a)):
+    if a[:m] != hb[:m] or (len(hb) < len(a)) or overflow:
         d = 0
         while d < m and a[d] == hb[d]:
             d += 1
-        if d < len(a):
-            v.append(("C04.trace-differs", "record %d differs: interpreter=%s generated C=%s; before: %s; external order fed: %s" % (
-                d, a[d] if d < len(a) else None, hb[d] if d < len(hb) else None, a[max(0, d - 4):d], ext_order[:12])))
+        if d < len(a) or overflow:
+            v.append(("C04.trace-differs", "record %d differs: interpreter=%s generated C=%s%s; before: %s; external order fed: %s" % (
+                d, a[d] if d < len(a) else None, hb[d] if d < len(hb) else None, " (the generated machine went on until the host's queue of 4096 internal events overflowed)" if overflow else "",
+                a[max(0, d - 4):d], ext_order[:12])))
     info["events"] = len([t for t in a if t[0] == "E"])
     info["cfgs"] = len([t for t in a if t[0] == "cfg"])
     info["nontrivial"] = info["events"] >= 2 and info["cfgs"] >= 3
     return v, info
 
 
-def interp_stream_until(plan, res, seq):
+def interp_stream_until(plan, res, seq, want_ext=False):
     class R(object):
         pass
     r2 = R()
     r2.lines = [r for r in res.lines if r[SEQ] < seq]
-    return interp_stream(plan, r2)[0]
+    return interp_stream(plan, r2)[1 if want_ext else 0]
 
 
 def evaluate(plan, usim):
@@ -243,6 +266,9 @@ def run_one(ctx, usim, seed, k, acc):
     v, info = check(plan, usim, "w%d" % k)
     acc.count("pol.nonpreempt")
     acc.count("fault.none_fault_free_histories")
+    acc.count("runs_compared_up_to_the_step_cap", 1 if info.get("capped") else 0)
+    acc.sim_ms += info.get("sim_ms", 0)
+    acc.decisions += info.get("decisions", 0)
     if info["skipped"]:
         acc.count("skipped: " + info["skipped"])
     acc.count("probe.events_compared", info["events"])
@@ -256,5 +282,64 @@ def run_one(ctx, usim, seed, k, acc):
         acc.samples.append({"run": k, "seed": seed, "chart": plan["charts"]["main"], "ops": plan["actors"]["main"], "events_compared": info["events"]})
 
 
+def with_engine(plan, engine):
+    q = json.loads(json.dumps(plan))
+    for o in q["actors"]["main"]:
+        if o.get("op") == "create":
+            o["engine"] = engine
+    return q
+
+
+C03_TO_C04 = {
+    "C03-fast-engine-suppresses-ancestor-transition-next-to-targetless-descendant": "C04-generated-c-suppresses-ancestor-transition-next-to-targetless-descendant",
+    "C03-transition-into-history-of-active-parent": "C04-transition-into-history-of-active-parent",
+}
+
+
 def classify(rule, detail, plan):
+    """The emitted step function is the fast engine's algorithm over bit arrays.  Where the generated machine differs from the
+    (default, large) interpreter but agrees with the fast engine, and the fast/large difference on this very plan is one of
+    the recorded C03 findings, the divergence is that finding seen through the transpiler."""
+    if rule != "C04.trace-differs":
+        return None
+    import p_c03
+    u = usimlib.Usim(FLAVOUR)
+    try:
+        if check(with_engine(plan, "fast"), u, "cls%d" % os.getpid())[0]:
+            u.kill()
+            return classify_reference(plan)
+        p3 = json.loads(json.dumps(plan))
+        p3["actors"]["main"] = [o for o in p3["actors"]["main"] if o.get("op") != "transform"]
+        p3["source"] = "generated"
+        for (r3, d3) in p_c03.evaluate(p3, u):
+            cls = p_c03.classify(r3, d3, p3)
+            if cls in C03_TO_C04:
+                return C03_TO_C04[cls]
+    finally:
+        u.kill()
+    return classify_reference(plan)
+
+
+def classify_reference(plan):
+    """The reference of this comparison is the interpreter.  Where the interpreter itself leaves Appendix D on this plan in
+    one of the ways recorded under C01 (history of an active parent, shared history memory, selection after a preempted
+    transition, content order), a difference to the generated machine cannot be held against the transpiler."""
+    import refine
+    p1 = json.loads(json.dumps(plan))
+    p1["actors"]["main"] = [o for o in p1["actors"]["main"] if o.get("op") != "transform"]
+    u = usimlib.Usim(FLAVOUR)
+    try:
+        res = u.run(p1)
+    finally:
+        u.kill()
+    if res.failed_hard():
+        return None
+    try:
+        root = gen.from_xml(p1["charts"]["main"])
+    except Exception:
+        return None
+    for (r1, d1) in refine.refine(root, p1, res)[0]:
+        if r1.startswith("C01.") and p_c01.classify(r1, d1, p1):
+            return "C04-reference-interpreter-leaves-appendix-d-in-a-recorded-way"
+        break
     return None
